@@ -130,6 +130,27 @@ def model_check(ctx, spec, cfgname, workers=NCPU, timeout=1800, expect_ok=True):
     return out, errs
 
 
+def apalache_inductive(ctx, spec, init='Init', indinit='IndInit', inv='IndInv', timeout=180):
+    """unbounded lemma: Init => Inv (length 0) and IndInit /\\ Next => Inv' (length 1), discharged by Apalache"""
+    d = ctx.path('apa_%s_%d' % (spec, next(_CTR)))
+    os.makedirs(d)
+    shutil.copy(os.path.join(ctx.specdir, spec + '.tla'), d)
+    res = []
+    for ini, length in ((init, 0), (indinit, 1)):
+        cmd = ['apalache-mc', 'check', '--init=' + ini, '--inv=' + inv, '--length=%d' % length, spec + '.tla']
+        try:
+            p = subprocess.run(cmd, cwd=d, capture_output=True, text=True, timeout=timeout)
+        except subprocess.TimeoutExpired:
+            raise Machinery('Apalache timeout on %s' % spec)
+        ok = 'EXITCODE: OK' in p.stdout
+        res.append({'init': ini, 'inv': inv, 'length': length, 'ok': ok})
+        if not ok:
+            raise Machinery('Apalache could not discharge %s/%s (length %d): %s' % (spec, inv, length, p.stdout[-1500:]))
+    shutil.rmtree(d, ignore_errors=True)
+    ctx.stats.setdefault('lemmas', []).append({'spec': spec, 'tool': 'apalache-mc 0.58 (inductive invariant, unbounded)', 'obligations': res})
+    log('LEMMA %s: inductive invariant %s discharged by Apalache (unbounded payload lengths)' % (spec, inv))
+
+
 def parse_tagged(out, tag):
     """lines printed by TLC as "TAG {json}" (a TLA+ string, i.e. JSON-escaped)"""
     res = []
